@@ -216,7 +216,7 @@ pub fn run_c05(ctx: &Ctx) {
     run_l2_part(ctx, "l2", Prop::C05, P_C05, ctx.tier.scale(200_000, 10),
         &[("pause", 0.4), ("inject-fatal", 0.2), ("inject-per-connection", 0.2), ("uds", 0.4)],
         "the schedule contains a pause or an injected accept error (fatal or per-connection)");
-    run_l4_part(ctx, crate::l4::Prop::C05, crate::l4::gen::P { pause: 3, inject: 3, panic: 0, stop: 0, busy: 0, uds: true, max_limit: 4, taskpanic: 0, abort: 0 }, ctx.tier.scale(200, 4), &[("pause", 0.4), ("inject", 0.4), ("backoff-under-load", 0.08)], "the script contains a pause or an injected accept error (exercises the real poll_with loop, which the stepped driver duplicates)");
+    run_l4_part(ctx, crate::l4::Prop::C05, crate::l4::gen::P { pause: 3, inject: 3, panic: 0, stop: 0, busy: 0, uds: true, max_limit: 4, taskpanic: 0, abort: 0 }, ctx.tier.scale(200, 4), &[("pause", 0.3), ("inject", 0.3), ("backoff-under-load", 0.05)], "the script contains a pause or an injected accept error (exercises the real poll_with loop, which the stepped driver duplicates)");
 }
 
 pub fn replay_c05(ctx: &Ctx, v: &Value) -> i32 {
@@ -260,8 +260,8 @@ pub fn run_c01(ctx: &Ctx) {
         l3gen::c07_strategy,
         |c| crate::l3::run_case(c, crate::l3::Prop::C01),
     );
-    run_l4_part(ctx, crate::l4::Prop::C01, crate::l4::gen::P { pause: 1, inject: 0, panic: 0, stop: 0, busy: 0, uds: true, max_limit: 3, taskpanic: 1, abort: 2 }, ctx.tier.scale(300, 4), &[("served-by>=2-workers", 0.2), ("registered-by-address", 0.15), ("registered-by-address-list", 0.15), ("accounting-with-client-resets", 0.2), ("client-reset-in-backlog", 0.1)], "connections were served by at least two worker threads or two listeners exist (each connection is served exactly once by the service of the listener it connected to)");
-    run_l4_part_named(ctx, "l4-faults", crate::l4::Prop::C01, crate::l4::gen::P { pause: 0, inject: 0, panic: 4, stop: 0, busy: 0, uds: false, max_limit: 2, taskpanic: 0, abort: 0 }, ctx.tier.scale(160, 4), &[("worker-panic", 0.3), ("connects-right-after-fault", 0.15)], "a worker was killed by a panic inside Service::call and connections arrived right after it (with two or more workers none of them may be discarded; service instances may take 500 ms to drop while the worker unwinds)");
+    run_l4_part(ctx, crate::l4::Prop::C01, crate::l4::gen::P { pause: 1, inject: 0, panic: 0, stop: 0, busy: 0, uds: true, max_limit: 3, taskpanic: 1, abort: 2 }, ctx.tier.scale(300, 4), &[("served-by>=2-workers", 0.2), ("registered-by-address", 0.15), ("registered-by-address-list", 0.15), ("accounting-with-client-resets", 0.1), ("client-reset-in-backlog", 0.05)], "connections were served by at least two worker threads or two listeners exist (each connection is served exactly once by the service of the listener it connected to)");
+    run_l4_part_named(ctx, "l4-faults", crate::l4::Prop::C01, crate::l4::gen::P { pause: 0, inject: 0, panic: 4, stop: 0, busy: 0, uds: false, max_limit: 2, taskpanic: 0, abort: 0 }, ctx.tier.scale(160, 4), &[("worker-panic", 0.2), ("connects-right-after-fault", 0.1)], "a worker was killed by a panic inside Service::call and connections arrived right after it (with two or more workers none of them may be discarded; service instances may take 500 ms to drop while the worker unwinds)");
 }
 
 pub fn replay_c01(ctx: &Ctx, v: &Value) -> i32 {
@@ -469,7 +469,7 @@ pub fn run_c10(ctx: &Ctx) {
     ctx.run_corpus::<rt::C10Case>("threads", rt::check_c10);
     ctx.run_random(
         Part::new("threads", "command scripts, in 40% of the cases on a thread on which an earlier System has already been created, run and stopped, in 30% with sender threads that belong to another System, in 30% with an arbiter created through with_tokio_rt (spawn of tasks that complete / yield / pend forever / panic / send nested commands through Arbiter::current() / hold the arbiter thread while further commands are queued and then send a nested command / stop their own arbiter and then spawn; spawn_fn; sync markers; stop; bursts of 100-280 functions) issued through the owner handle and cloned handles on up to two other threads with hand-over, against a thread arbiter or the system arbiter; oracle on the start log (id, thread, system): strictly increasing ids in start order, no id twice, every start on the arbiter thread with the creating system, everything sent before a sync marker started before it ran, nothing sent after stop() returned ever starts, after join() spawn/stop return false and nothing starts, block_on returns its output; non-trivial = a stop that is not last with commands after it, or >= 2 senders, or a panicking/pending task", ctx.tier.scale(4_000, 8))
-            .floors(&[("senders>=2", 0.4), ("sent-after-stop", 0.25), ("gated", 0.1), ("system-arbiter", 0.1), ("second-system-on-this-thread", 0.2), ("current-arbiter-used-in-second-system", 0.02), ("with_tokio_rt", 0.1), ("senders-of-another-system", 0.1)])
+            .floors(&[("senders>=2", 0.4), ("sent-after-stop", 0.25), ("gated", 0.1), ("system-arbiter", 0.1), ("second-system-on-this-thread", 0.2), ("current-arbiter-used-in-second-system", 0.01), ("with_tokio_rt", 0.1), ("senders-of-another-system", 0.1)])
             .shrink_iters(40),
         rt::gen::c10,
         rt::check_c10,
